@@ -274,24 +274,27 @@ def model_check(ctx, cfgs, negative):
 
 
 def run_batches(ctx, prop, binary, batches):
-    """batches: [(tag, schedules)]. Returns totals."""
-    tot = dict(replayed=0, accepted=0, rejected=0, unreal=0, free=0, distinct=set(), samples=[])
-    for tag, scheds in batches:
-        if not scheds:
-            continue
-        ep, results = replay(ctx, binary, tag, scheds)
-        good, bad = validate(ctx, prop, tag, ep, scheds, results, binary)
-        tot["replayed"] += len(results)
-        tot["accepted"] += good
-        tot["rejected"] += bad
-        tot["unreal"] += sum(1 for r in results if r.get("unrealised"))
-        tot["free"] += sum(1 for r in results if r.get("free_run"))
-        for s in scheds:
+    """batches: [(tag, schedules)]: replayed and validated as ONE batch (one harness fan-out, two TLC runs). Returns totals."""
+    tot = dict(replayed=0, accepted=0, rejected=0, unreal=0, free=0, distinct=set(), samples=[], per_family={})
+    scheds = [s for _, ss in batches for s in ss]
+    if not scheds:
+        return tot
+    ep, results = replay(ctx, binary, "all", scheds)
+    good, bad = validate(ctx, prop, "all", ep, scheds, results, binary)
+    tot["replayed"] = len(results)
+    tot["accepted"] = good
+    tot["rejected"] = bad
+    tot["unreal"] = sum(1 for r in results if r.get("unrealised"))
+    tot["free"] = sum(1 for r in results if r.get("free_run"))
+    tot["timeouts"] = sum(1 for r in results if r.get("timeouts"))
+    res_by_id = {r["id"]: r for r in results}
+    for tag, ss in batches:
+        tot["per_family"][tag] = len(ss)
+        for s in ss:
             if nontrivial(s):
                 tot["distinct"].add(sched_hash(s))
-        if results:
-            s0 = dict(scheds[0])
-            tot["samples"].append({"batch": tag, "schedule": s0, "result": results[0]})
+        if ss and ss[0]["id"] in res_by_id:
+            tot["samples"].append({"family": tag, "schedule": ss[0], "result": res_by_id[ss[0]["id"]]})
     return tot
 
 
